@@ -20,66 +20,66 @@ func init() {
 
 // reviewed budget of explicit (non-synthesised) panic sites per production function
 var panicBudget = map[string]int{
-	"gblsminsig.SignatureProofScheme.Finalize": 1,
-	"gblsminsig.SignatureProofScheme.ValidateFinalizedProof": 1,
-	"gblsminsig.SignatureProofScheme.ValidateFinalizedProof$1": 2,
-	"gblsminsig.binomialCoefficient": 1,
-	"gblsminsig.decodeCombinationIndex": 1,
-	"gblsminsig.sortRestForFinalizing$1": 1,
-	"gcrypto.NewSimpleCommonMessageSignatureProof": 1,
-	"gtxbuf.Buffer.Initialize":                     1, // API misuse: Initialize called twice
-	"gcrypto.Registry.Marshal": 1,
-	"gcrypto.Registry.Register": 1,
-	"gwatchdog.Watchdog.Monitor": 1,
-	"sigtree.New": 1,
+	"gblsminsig.SignatureProofScheme.Finalize":                      1,
+	"gblsminsig.SignatureProofScheme.ValidateFinalizedProof":        1,
+	"gblsminsig.SignatureProofScheme.ValidateFinalizedProof$1":      2,
+	"gblsminsig.binomialCoefficient":                                1,
+	"gblsminsig.decodeCombinationIndex":                             1,
+	"gblsminsig.sortRestForFinalizing$1":                            1,
+	"gcrypto.NewSimpleCommonMessageSignatureProof":                  1,
+	"gtxbuf.Buffer.Initialize":                                      1, // API misuse: Initialize called twice
+	"gcrypto.Registry.Marshal":                                      1,
+	"gcrypto.Registry.Register":                                     1,
+	"gwatchdog.Watchdog.Monitor":                                    1,
+	"sigtree.New":                                                   1,
 	"tmconsensus.AcceptAllValidFeedbackMapper.HandleProposedHeader": 1,
-	"tmconsensus.AcceptAllValidFeedbackMapper.mapVoteResult": 1,
-	"tmconsensus.ByzantineMajority": 1,
-	"tmconsensus.ByzantineMinority": 1,
-	"tmconsensus.DropDuplicateFeedbackMapper.HandleProposedHeader": 1,
-	"tmconsensus.DropDuplicateFeedbackMapper.mapVoteResult": 1,
-	"tmconsensus.SparseSignatureCollection.toFullProofMap": 2,
-	"tmgossip.ChattyStrategy.kernel": 1,
-	"tmi.Kernel.addFuturePrecommit": 1,
-	"tmi.Kernel.addFuturePrevote": 1,
-	"tmi.Kernel.addPrecommit": 3,
-	"tmi.Kernel.addPrevote": 2,
-	"tmi.Kernel.addProposedHeader": 1,
-	"tmi.Kernel.checkNextRoundPrecommitViewShift": 1,
-	"tmi.Kernel.checkPrevoteViewShift": 1,
-	"tmi.Kernel.checkVotingPrecommitViewShift": 1,
-	"tmi.Kernel.handleReplayedHeader": 2,
-	"tmi.Kernel.handleStateMachineAction": 3,
-	"tmi.Kernel.handleStateMachineRoundEntrance": 2,
-	"tmi.Kernel.loadInitialCommittingView": 3,
-	"tmi.Kernel.loadInitialVotingView": 1,
-	"tmi.Kernel.mainLoop": 1,
-	"tmi.Kernel.sendPHCheckResponse": 1,
-	"tmi.Kernel.sendViewLookupResponse": 1,
-	"tmi.Kernel.setPHCheckStatus": 1,
-	"tmi.NewKernel": 1,
-	"tmi.kState.FindView": 1,
-	"tmi.kState.MarkViewUpdated": 1,
-	"tmi.mapToSparseSignatureCollection": 1,
-	"tmi.stateMachineOutput.MarkSent": 1,
-	"tmi.stateMachineViewManager.ForceSend": 1,
-	"tmi.stateMachineViewManager.MarkFirstSentVersion": 1,
-	"tmmirror.Mirror.HandlePrevoteProofs": 2,
-	"tmmirror.Mirror.HandleProposedHeader": 1,
-	"tmmirror.Mirror.handleFuturePrecommitProofs": 1,
-	"tmmirror.Mirror.handleFuturePrevoteProofs": 1,
-	"tmmirror.Mirror.handlePrecommitProofs": 2,
-	"tmstate.StandardRoundTimer.background": 1,
-	"tmstate.StateMachine.advance": 1,
-	"tmstate.StateMachine.beginRoundLive": 2,
-	"tmstate.StateMachine.handleFinalization": 2,
-	"tmstate.StateMachine.handleHeightCommitted": 1,
-	"tmstate.StateMachine.handleJumpAhead": 2,
-	"tmstate.StateMachine.handleProposalViewUpdate": 3,
-	"tmstate.StateMachine.handleTimerElapsed": 1,
-	"tmstate.StateMachine.handleViewUpdate": 2,
-	"tmstate.StateMachine.sendInitialActionSet": 1,
-	"tmstate.StateMachine.startInitialTimer": 1,
+	"tmconsensus.AcceptAllValidFeedbackMapper.mapVoteResult":        1,
+	"tmconsensus.ByzantineMajority":                                 1,
+	"tmconsensus.ByzantineMinority":                                 1,
+	"tmconsensus.DropDuplicateFeedbackMapper.HandleProposedHeader":  1,
+	"tmconsensus.DropDuplicateFeedbackMapper.mapVoteResult":         1,
+	"tmconsensus.SparseSignatureCollection.toFullProofMap":          2,
+	"tmgossip.ChattyStrategy.kernel":                                1,
+	"tmi.Kernel.addFuturePrecommit":                                 1,
+	"tmi.Kernel.addFuturePrevote":                                   1,
+	"tmi.Kernel.addPrecommit":                                       3,
+	"tmi.Kernel.addPrevote":                                         2,
+	"tmi.Kernel.addProposedHeader":                                  1,
+	"tmi.Kernel.checkNextRoundPrecommitViewShift":                   1,
+	"tmi.Kernel.checkPrevoteViewShift":                              1,
+	"tmi.Kernel.checkVotingPrecommitViewShift":                      1,
+	"tmi.Kernel.handleReplayedHeader":                               2,
+	"tmi.Kernel.handleStateMachineAction":                           3,
+	"tmi.Kernel.handleStateMachineRoundEntrance":                    2,
+	"tmi.Kernel.loadInitialCommittingView":                          3,
+	"tmi.Kernel.loadInitialVotingView":                              1,
+	"tmi.Kernel.mainLoop":                                           1,
+	"tmi.Kernel.sendPHCheckResponse":                                1,
+	"tmi.Kernel.sendViewLookupResponse":                             1,
+	"tmi.Kernel.setPHCheckStatus":                                   1,
+	"tmi.NewKernel":                                                 1,
+	"tmi.kState.FindView":                                           1,
+	"tmi.kState.MarkViewUpdated":                                    1,
+	"tmi.mapToSparseSignatureCollection":                            1,
+	"tmi.stateMachineOutput.MarkSent":                               1,
+	"tmi.stateMachineViewManager.ForceSend":                         1,
+	"tmi.stateMachineViewManager.MarkFirstSentVersion":              1,
+	"tmmirror.Mirror.HandlePrevoteProofs":                           2,
+	"tmmirror.Mirror.HandleProposedHeader":                          1,
+	"tmmirror.Mirror.handleFuturePrecommitProofs":                   1,
+	"tmmirror.Mirror.handleFuturePrevoteProofs":                     1,
+	"tmmirror.Mirror.handlePrecommitProofs":                         2,
+	"tmstate.StandardRoundTimer.background":                         1,
+	"tmstate.StateMachine.advance":                                  1,
+	"tmstate.StateMachine.beginRoundLive":                           2,
+	"tmstate.StateMachine.handleFinalization":                       2,
+	"tmstate.StateMachine.handleHeightCommitted":                    1,
+	"tmstate.StateMachine.handleJumpAhead":                          2,
+	"tmstate.StateMachine.handleProposalViewUpdate":                 3,
+	"tmstate.StateMachine.handleTimerElapsed":                       1,
+	"tmstate.StateMachine.handleViewUpdate":                         2,
+	"tmstate.StateMachine.sendInitialActionSet":                     1,
+	"tmstate.StateMachine.startInitialTimer":                        1,
 }
 
 // reviewed panic sites that remain reachable from peer input or schedules (known findings)
